@@ -469,9 +469,15 @@ def dispatch (tbl : DbTable) (line : String) : String :=
     match Recovery.prior prior with
     | none => "M ?"
     | some d0 =>
-      let crashes : List Recovery.Crash := (cps.splitOn ",").map fun c => if c == "full" then none else some c.toNat!
-      let (d, trace) := crashes.foldl (fun (acc : Recovery.Dir × List String) cp =>
-        let d' := (Recovery.run acc.1 cp).dir
+      -- `full` = a complete start, `mem` = an in-memory session, a number = a start killed there,
+      -- `f<n>` / `ffull` = a start of another build of the same version with other data
+      let events : List Recovery.Event := (cps.splitOn ",").map fun c =>
+        if c == "full" then .start none else if c == "mem" then .memSession
+        else if c == "ffull" then .foreign false none
+        else if c.startsWith "f" then .foreign false (some (c.drop 1).toNat!)
+        else .start (some c.toNat!)
+      let (d, trace) := events.foldl (fun (acc : Recovery.Dir × List String) e =>
+        let d' := Recovery.event acc.1 e
         (d', acc.2 ++ [d'.md.show])) (d0, [])
       let fin := Recovery.run d none
       s!"M {",".intercalate trace} F {fin.dir.md.show} {if fin.answers == some true then "ANSWERS-FRESH" else "ANSWERS-DIFFER"}"
